@@ -18,7 +18,8 @@ fns=["session::session::Session::close","session::session::Session::handle_io_er
      "util::cert_reloader::CertReloader::reload","session::session::Session::open_stream","session::session::Session::start_client","session::session::Session::write_with_padding",
      "session::session::Session::recv_loop","session::session::Session::process_stream_data","session::session::Session::disable_buffering","session::session::Session::enable_buffering",
      "client::client::Client::create_new_session","util::auth::authenticate_client","util::auth::send_authentication","session::session::Session::new_server","session::session::Session::new_client",
-     "session::stream_reader::StreamReader::buffer_len","session::stream_reader::StreamReader::is_eof"]
+     "session::stream_reader::StreamReader::buffer_len","session::stream_reader::StreamReader::is_eof",
+     "util::tls::create_server_config","util::tls::create_server_config_from_files"]
 fns=[f for f in fns if f in P.bodies]
 t=effects.generate(ctx, owners, arms, fns)
 json.dump(t, open('/verif/rules/effects_baseline.json','w'), indent=1, sort_keys=True)
